@@ -165,9 +165,9 @@ def run_rules(ctx, chk):
         rnew = [b for b in fb.bodies(common.SHM) if b.name == 'new' and (b.impl_self or '').endswith('ShmReader') and b.defkind != 'Closure']
         for b in rnew:
             chk.saw(b)
-            eng_n = common.mk_engine(fb, inline_depth=8, loop_unroll=8)
+            eng_n, qs_n = common.run_unrolled(fb, b, inline_depth=8)
             n_ok = 0
-            for q in eng_n.run(b):
+            for q in qs_n:
                 if not (q.kind == 'return' and q.value[0] == 'agg' and q.value[2] == 'Ok' and q.value[3] and q.value[3][0][0] == 'agg'):
                     continue
                 n_ok += 1
